@@ -15,8 +15,15 @@ Of(hs, method) == SelectSeq(hs, LAMBDA h : h.method = method)
 
 AnyDup(records) == \E i \in DOMAIN records : DupNames(records[i].pat)
 
+(* CHECK 0 marks the unused slots of the double-array, so a NUL byte cannot label an edge: Build  *)
+(* rejects a parameterised pattern with a NUL byte in its literal text (D55); static patterns are *)
+(* served from a map and may contain any byte.                                                    *)
+NulInTrie(pat) == /\ \E i \in DOMAIN pat : IsPlaceholder(pat[i])
+                  /\ \E i \in DOMAIN pat : ~IsPlaceholder(pat[i]) /\ \E j \in DOMAIN pat[i].s : pat[i].s[j] = 0
+AnyNul(records) == \E i \in DOMAIN records : NulInTrie(records[i].pat)
+
 RAllowed(s, e) ==
-  CASE e.ev = "build"  -> e.err = AnyDup(s.records)
+  CASE e.ev = "build"  -> e.err = (AnyDup(s.records) \/ AnyNul(s.records))
     [] e.ev = "serve"  -> /\ s.kind = "mux"
                           /\ LookupAllowed(Of(s.records, e.method), e.path, e.obs)
                           /\ (~e.obs.found => e.status = 404)
@@ -25,7 +32,7 @@ RAllowed(s, e) ==
     [] OTHER -> FALSE
 
 RWhy(s, e) ==
-  CASE e.ev = "build"  -> "build-accepts-iff-no-duplicate-names"
+  CASE e.ev = "build"  -> "build-accepts-iff-no-duplicate-names-and-no-NUL-in-a-parameterised-pattern"
     [] e.ev = "serve" -> IF ~LookupAllowed(Of(s.records, e.method), e.path, e.obs)
                          THEN WhyNot(Of(s.records, e.method), e.path, e.obs) ELSE "not-found-must-answer-404"
     [] e.ev = "lookup" ->
